@@ -562,6 +562,14 @@ def _run(chk, tier, replay, binary, fdir, extra_paths):
     infra = [v for v in verdicts if any(w in ("prefix:cuts-missing", "prefix:no-reference-file", "prefix:opened-list-inconsistent", "unknown-event") for w in v["why"])]
     if infra:
         raise common.InfraError("C18 machinery: %s" % json.dumps(infra[:3])[:1500])
+    # a fault-free run whose close() fails leaves nothing to compare with: not a C18 statement (C01 judges
+    # fault-free histories); the group is skipped by SinkTrace and counted here
+    noref = [v for v in verdicts if set(v["why"]) == {"ref:close-failed"}]
+    verdicts = [v for v in verdicts if set(v["why"]) != {"ref:close-failed"}]
+    if noref:
+        common.log("C18: %d groups not judged: close() of the fault-free run returned non-OK (e.g. %s)" % (len(noref), noref[0].get("run")))
+    chk.part("sink", groups_without_reference=len(noref))
+
     def prio(v):            # representative case per signature: full device first, then path writers
         lab = v.get("run", "")
         return (0 if "devfull" in lab else 1 if "r0 " in lab else 2 if " p/" in lab else 3, v.get("id", ""), v.get("l", 0))
